@@ -260,4 +260,5 @@ reg(Check("C10", "model_checking",
           parts=[Part("pres", SRV, "^TestVerifC10Pres$", instr=True, gomaxprocs=16, deadline=(300, 2400)),
                  Part("acl", SRV, "^TestVerifC10Acl$", instr=True, gomaxprocs=16, deadline=(300, 2400)),
                  Part("p2p", SRV, "^TestVerifC10P2P$", instr=True, gomaxprocs=16, deadline=(300, 2400)),
-                 Part("races", SRV, "^TestVerifC10Races$", instr=True, shards=(16, 16), deadline=(300, 3000))]))
+                 Part("races", SRV, "^TestVerifC10Races$", instr=True, shards=(16, 16), deadline=(300, 3000)),
+                 Part("presraces", SRV, "^TestVerifC10PresRaces$", instr=True, shards=(16, 16), deadline=(300, 3000))]))
